@@ -19,7 +19,7 @@ RULE = ("full product: class {BaseSamples,Samples,SMCSamples} x source ns x targ
         "{float32,float64} x requested dtype {None,'float32','float64', native object of the target} x field subset "
         "{none, all, L+pi, q only} x route {to_namespace, to_numpy, from_samples(xp=), sample_posterior(xp=)}; dtype helpers "
         "over 14 spellings x 3 namespaces; sampler populations (initial, every stored, restored, final) for requested dtype x "
-        "namespace x sampler; zuko/flowjax outputs into Samples(xp=ns). non-trivial = cross-namespace or dtype-changing case")
+        "namespace x sampler; JAX sources with JAX's default 64-bit-disabled configuration (fresh interpreter) into torch/numpy with a float64 request; zuko/flowjax outputs into Samples(xp=ns). non-trivial = cross-namespace or dtype-changing case")
 ASSUMPTIONS = [
     "values 0.1*(i+1)+j style floats that are not exactly representable in float32, so that a silent narrowing changes values",
     "stub kernels for the sampler-population part",
@@ -356,6 +356,86 @@ def run_flow_outputs(backend):
     return r.dump()
 
 
+def x64_off_worker():
+    """Runs inside a fresh interpreter in which JAX keeps its default configuration (64-bit disabled)."""
+    import json
+
+    import jax.numpy as jnp
+    import torch
+
+    from aspire import samples as S
+
+    out = []
+    xj = jnp.asarray([[0.1, 1 / 3], [0.2, 2 / 3], [0.3, 1.0]])
+    lj = jnp.asarray([-0.7, -1.0, -1.3])
+    txp = get_xp("torch")
+    nxp = get_xp("numpy")
+    for cls in ("BaseSamples", "Samples", "SMCSamples"):
+        C = getattr(S, cls)
+        extra = {"beta": 0.5} if cls == "SMCSamples" else {}
+        for req in ("float64", torch.float64, "float32"):
+            want = "float64" if "64" in str(req) else "float32"
+            for route in ("constructor", "to_namespace", "from_samples"):
+                rec = {"class": cls, "route": route, "request": str(req), "want": want}
+                try:
+                    if route == "constructor":
+                        o = C(x=xj, log_likelihood=lj, log_prior=lj, log_q=lj, xp=txp, dtype=req, **extra)
+                    else:
+                        src = C(x=xj, log_likelihood=lj, log_prior=lj, log_q=lj, xp=jnp, **extra)
+                        if route == "to_namespace":
+                            import inspect
+
+                            if "dtype" not in inspect.signature(src.to_namespace).parameters:
+                                continue
+                            o = src.to_namespace(txp, dtype=req)
+                        else:
+                            o = C.from_samples(src, xp=txp, dtype=req, **extra)
+                    rec["got"] = {f: str(getattr(o, f).dtype).replace("torch.", "") for f in ("x", "log_likelihood", "log_q")}
+                    rec["reported"] = str(o.dtype).replace("torch.", "")
+                except Exception as e:
+                    rec["error"] = f"{type(e).__name__}: {str(e)[:120]}"
+                out.append(rec)
+        # jax float32 source into numpy with a float64 request
+        try:
+            o = C(x=xj, log_likelihood=lj, log_prior=lj, log_q=lj, xp=nxp, dtype="float64", **extra)
+            out.append({"class": cls, "route": "constructor-numpy", "request": "float64", "want": "float64",
+                        "got": {"x": str(o.x.dtype)}, "reported": str(o.dtype)})
+        except Exception as e:
+            out.append({"class": cls, "route": "constructor-numpy", "request": "float64", "want": "float64", "error": repr(e)[:120]})
+    print("X64OFF=" + json.dumps(out))
+
+
+def run_x64_off(_):
+    """JAX's default configuration has 64-bit types disabled (the repository's tests enable them): a float64
+    request for a torch / numpy sample set built from JAX arrays must still be honoured."""
+    import json
+    import os
+    import subprocess
+    import sys
+
+    r = Report()
+    verif = os.path.dirname(os.path.dirname(os.path.abspath(__file__)))
+    code = ("import sys; sys.path.insert(0, %r); import env; env.setup(jax_x64=False); "
+            "from checks import c15; c15.x64_off_worker()" % verif)
+    envv = dict(os.environ, JAX_ENABLE_X64="0")
+    pr = subprocess.run([sys.executable, "-c", code], capture_output=True, text=True, env=envv, timeout=600)
+    line = [l for l in pr.stdout.splitlines() if l.startswith("X64OFF=")]
+    if not line:
+        raise explorer.HarnessError("x64-off worker produced nothing: " + pr.stderr[-400:])
+    for rec in json.loads(line[0][7:]):
+        case = {"x64_off": True, **{k: rec[k] for k in ("class", "route", "request")}}
+        r.case(explorer.digest(case), nontrivial=True)
+        if "error" in rec:
+            r.violation(f"C15/jax-x64-off/{rec['route']}/{rec['class']}/raises", rec["error"], case)
+            continue
+        bad = {f: w for f, w in rec["got"].items() if w != rec["want"]}
+        if bad:
+            r.violation(f"C15/jax-x64-off/{rec['route']}/requested-{rec['want']}/got-{sorted(set(bad.values()))[0]}",
+                        {"fields": bad, "reported_dtype": rec["reported"]}, case)
+    r.sample({"x64_off": True, "class": "Samples", "route": "constructor", "request": "float64"})
+    return r.dump()
+
+
 def dispatch(job):
     return globals()[job[0]](job[1])
 
@@ -371,6 +451,7 @@ def run(tier, seed, workers):
                 # user callables that return the *other* float width (e.g. a NumPy likelihood always returns float64)
                 other = "float64" if dt == "float32" else "float32"
                 jobs.append(("run_sampler_dtypes", (sampler, ns, dt, other)))
+    jobs.append(("run_x64_off", None))
     jobs.append(("run_flow_outputs", "zuko"))
     jobs.append(("run_flow_outputs", "flowjax"))
     for d in pmap("checks.c15", "dispatch", jobs, workers):
@@ -382,6 +463,8 @@ def replay(case):
     r = Report()
     if "class" in case:
         r.merge(run_conversions((case["class"], case["src"])))
+    elif case.get("x64_off"):
+        r.merge(run_x64_off(None))
     elif "helper" in case:
         r.merge(run_helpers(None))
     elif "backend" in case:
